@@ -20,14 +20,16 @@ BAND_ULPS = 8                 # NaN boundary: rounding of the code's own t0 (see
 
 RULE = (
     'configurations = (geometry, energy unit, tof unit, L1 unit, L2 unit, energy dtype, tof dtype) drawn from the '
-    'grid {meV,eV,J,ueV} x {ns,us,ms,s} x {mm,cm,m,km,angstrom}^2 x {f64,f32,i64}^2 x {direct,indirect}; per '
+    'grid {meV,eV,J,ueV} x {ns,us,ms,s} x {mm,cm,m,km,angstrom}^2 x {f64,f32,i64,i32}^2 for energy and tof x {f64,f32,i64,i32}^2 for '
+    'L1 and L2 (integers where the numeric values are meaningful integers: ueV, ns/us, mm/cm/m; every operand has its own unit) x '
+    '{direct,indirect}; per '
     'configuration Ei, Ef log-uniform in 1e-3..1e4 meV and L1, L2 log-uniform in 0.1..1e3 m, expressed in the '
     'configuration units and rounded to the dtype; L1 and L2 are float64 (as the beamline graph produces them) or float32 '
     'operands, independently;  arrival times are (a) the simulated neutron '
     't=L1/v(Ei)+L2/v(Ef) rounded to the tof dtype, (b) the code\'s own fl(t0) and its +-1,2,3,17 neighbours in the '
     'tof dtype, (c) log-uniform 1e-7..1e3 s, (d) zero and negative. A case is distinct by (configuration, operand '
     'bit patterns). Values are compared under the condition-aware tolerance eps*(max(E_fixed,E_var)+E_var*t0/|t-t0|) '
-    'with eps=1e-11 (all double) or 1e-5 (any single-precision operand among energy, tof, L1, L2); NaN-ness, finiteness, unit and dtype exactly. '
+    'where, in the ORACLE, eps follows the RESULT dtype (1e-11 for a float64 result whatever the operand dtypes, 1e-5 for a float32 result) — except the dtype patterns in which the unchanged code is only single-precision accurate (energy float32 with a non-float32 tof, or a float32 length of the variable leg; key C05:mixed-precision:<kernel>, known), which get the 1e-5 budget; a float32 tof or fixed-leg length with float64 energy is held to 1e-11 and to a NaN-boundary band of 8 double-precision ulps; the model/implementation correspondence uses eps=1e-11 (all double) or 1e-5 (any single-precision operand among energy, tof, L1, L2); NaN-ness, finiteness, unit and dtype exactly. '
     'Conservation against Ei-Ef is demanded when both legs are comparable (t0/(t-t0) <= 100), with the rounding of '
     'the constructed arrival time (2*u*E_var*t/(t-t0)) not charged to the kernel.'
 )
@@ -47,8 +49,10 @@ ASSUMPTIONS = [
 TRUSTED = [
     'modelled, not verified: scippneutron.conversion.tof._common_dtype, _energy_constant, _energy_transfer_t0, '
     'energy_transfer_direct_from_tof, energy_transfer_indirect_from_tof (lean/ScnVerif/Model/Inelastic.lean)',
-    'lengths: float64 and float32 operands are modelled (LenCast: astype(dtype) in t0, L**2 in the length\'s own precision '
-    'promoted to float64 in scale); integer lengths are not',
+    'lengths: float64, float32 and integer operands are modelled (LenCast: astype(dtype) in t0, L**2 in the length\'s own '
+    'precision promoted to float64 in scale); integer operands (energy, tof, lengths) run on the float64 carrier with their '
+    'exact integer values (squares below 2^53 are exact); an int32 length of the variable leg cannot be evaluated by scipp (pow is '
+    'undefined for int32) and is counted, not tested',
 ]
 LEVEL_TEXT = (
     'Lean 4 theorems over the reals about the executable model of the two inelastic kernels: for every positive '
@@ -71,8 +75,9 @@ TECHNIQUE = 'Lean 4 proof over an executable carrier-generic model + bit-level m
 E_UNITS = ['meV', 'eV', 'J', 'ueV']
 T_UNITS = ['ns', 'us', 'ms', 's']
 L_UNITS = ['mm', 'cm', 'm', 'km', 'angstrom']
-NP = {'f64': np.float64, 'f32': np.float32, 'i64': np.int64}
-SC = {'f64': 'float64', 'f32': 'float32', 'i64': 'int64'}
+NP = {'f64': np.float64, 'f32': np.float32, 'i64': np.int64, 'i32': np.int32}
+SC = {'f64': 'float64', 'f32': 'float32', 'i64': 'int64', 'i32': 'int32'}
+INTS = ('i64', 'i32')
 
 
 # ---- small helpers ----------------------------------------------------------------------------
@@ -148,15 +153,15 @@ def lu(rng, lo, hi):
 
 
 def cast(x: float, d: str):
-    if d == 'i64':
-        return np.int64(max(1, round(x)))
+    if d in INTS:
+        return NP[d](min(max(1, round(x)), 2**31 - 5000 if d == 'i32' else 2**62))
     return NP[d](x)
 
 
 def neighbours(x, d: str, k: int):
     """k-th neighbour of x in dtype d (k may be negative)"""
-    if d == 'i64':
-        return np.int64(int(x) + k)
+    if d in INTS:
+        return NP[d](int(x) + k)
     t = NP[d]
     y = t(x)
     for _ in range(abs(k)):
@@ -185,7 +190,13 @@ class Cfg:
         return Cfg(d['geom'], d['uE'], d['ut'], d['u1'], d['u2'], d['eD'], d['tD'], d.get('l1D', 'f64'), d.get('l2D', 'f64'))
 
     def with_geom(self, geom):
-        return Cfg(geom, self.uE, self.ut, self.u1, self.u2, self.eD, self.tD, self.l1D, self.l2D)
+        # scipp cannot square an int32 length: keep an int32 length only on the fixed-energy leg
+        l1D, l2D = self.l1D, self.l2D
+        if geom == 'direct' and l2D == 'i32':
+            l2D = 'i64'
+        if geom == 'indirect' and l1D == 'i32':
+            l1D = 'i64'
+        return Cfg(geom, self.uE, self.ut, self.u1, self.u2, self.eD, self.tD, l1D, l2D)
 
     def len_code(self):
         return ('s' if self.l1D == 'f32' else 'd') + ('s' if self.l2D == 'f32' else 'd')
@@ -194,19 +205,36 @@ class Cfg:
         return scale(self.uE, 'J'), scale(self.ut, 's'), scale(self.u1, 'm'), scale(self.u2, 'm')
 
 
-def random_cfg(rng, dtypes=('f64', 'f32'), allow_int=False):
+INT_L_UNITS = ['mm', 'cm', 'm']   # units in which 0.1..1e3 m are integers of moderate size (squares exact in float64)
+
+
+def random_cfg(rng, dtypes=('f64', 'f32'), allow_int=False, ctx=None):
+    """one configuration; every operand has its own unit and dtype.  Integer dtypes only where the numeric
+    values are meaningful integers: energy in ueV (1..1e7), tof in ns (int64) or us (int64/int32), lengths in
+    mm/cm/m.  scipp cannot square an int32 variable (`pow` is undefined for it), so an int32 length is only
+    used for the fixed-energy leg; the skipped combination is counted."""
     geom = rng.choice(['direct', 'indirect'])
     uE, ut = rng.choice(E_UNITS), rng.choice(T_UNITS)
     u1, u2 = rng.choice(L_UNITS), rng.choice(L_UNITS)
     eD, tD = rng.choice(dtypes), rng.choice(dtypes)
-    if allow_int and rng.random() < 0.25:
-        # integer operands only where the numeric values are large enough to be meaningful integers
-        if rng.random() < 0.5 and uE in ('ueV',):
-            eD = 'i64'
-        if ut in ('ns',):
-            tD = 'i64'
-    # lengths: float64 as produced by the beamline graph (weighted), or float32 operands
     l1D, l2D = rng.choice(['f64', 'f64', 'f32']), rng.choice(['f64', 'f64', 'f32'])
+    if allow_int:
+        if rng.random() < 0.2 and uE == 'ueV':
+            eD = rng.choice(INTS)
+        if rng.random() < 0.35 and ut in ('ns', 'us'):
+            tD = 'i64' if ut == 'ns' else rng.choice(INTS)
+        for which in (1, 2):
+            if rng.random() < 0.3:
+                unit, d = rng.choice(INT_L_UNITS), rng.choice(INTS)
+                variable_leg = (which == 2) == (geom == 'direct')
+                if d == 'i32' and variable_leg:
+                    if ctx is not None:
+                        ctx.count('dtype-not-evaluable:int32 length of the variable leg (scipp pow undefined for int32)')
+                    d = 'i64'
+                if which == 1:
+                    u1, l1D = unit, d
+                else:
+                    u2, l2D = unit, d
     return Cfg(geom, uE, ut, u1, u2, eD, tD, l1D, l2D)
 
 
@@ -233,8 +261,8 @@ def gen_cases(rng, cfg: Cfg, n: int, kinds=('neutron', 'boundary', 'random', 'no
         L1_m, L2_m = lu(rng, 0.1, 1e3), lu(rng, 0.1, 1e3)
         Ei = cast(Ei_meV * float(meV / sE), cfg.eD)
         Ef = cast(Ef_meV * float(meV / sE), cfg.eD)
-        L1 = NP[cfg.l1D](L1_m / float(s1))
-        L2 = NP[cfg.l2D](L2_m / float(s2))
+        L1 = cast(L1_m / float(s1), cfg.l1D)
+        L2 = cast(L2_m / float(s2), cfg.l2D)
         t1 = D(Fraction(float(L1)) * s1) / speed(Fraction(float(Ei)) * sE)
         t2 = D(Fraction(float(L2)) * s2) / speed(Fraction(float(Ef)) * sE)
         ratio = float(t1 / t2)
@@ -247,14 +275,14 @@ def gen_cases(rng, cfg: Cfg, n: int, kinds=('neutron', 'boundary', 'random', 'no
         elif kind == 'boundary':
             t0 = np_t0(cfg, cfix, fixedE, float(fixedL))
             k = rng.choice([0, 0, 1, -1, 2, -2, 3, -3, 17, -17])
-            base = NP[cfg.tD](t0) if cfg.tD != 'i64' else np.int64(math.floor(float(t0)))
+            base = NP[cfg.tD](t0) if cfg.tD not in INTS else NP[cfg.tD](math.floor(min(float(t0), 2.0e9)))
             t = neighbours(base, cfg.tD, k)
         elif kind == 'random':
             t = cast(lu(rng, 1e-7, 1e3) / float(st), cfg.tD)
         else:
-            t = cast(0.0, cfg.tD) if cfg.tD != 'i64' and rng.random() < 0.5 else NP[cfg.tD](-cast(lu(rng, 1e-7, 1e3) / float(st), cfg.tD))
-            if cfg.tD == 'i64' and rng.random() < 0.5:
-                t = np.int64(0)
+            t = cast(0.0, cfg.tD) if cfg.tD not in INTS and rng.random() < 0.5 else NP[cfg.tD](-cast(lu(rng, 1e-7, 1e3) / float(st), cfg.tD))
+            if cfg.tD in INTS and rng.random() < 0.5:
+                t = NP[cfg.tD](0)
         out.append(dict(kind=kind, Ei=Ei, Ef=Ef, L1=L1, L2=L2, t=t, c1=c1, c2=c2))
     return out
 
@@ -357,9 +385,30 @@ def reference(cfg: Cfg, c) -> Ref:
     return r
 
 
-def tolerance(cfg: Cfg, ref: Ref) -> Decimal:
-    eps = D(eps_of(cfg.eD, cfg.tD, cfg.l1D, cfg.l2D))
-    return eps * (max(D(ref.Efix), ref.Evar) + ref.Evar * ref.amp)
+def tolerance(cfg: Cfg, ref: Ref, eps=None) -> Decimal:
+    """the property's budget follows the RESULT dtype: 1e-11 for a float64 result (whatever the operand dtypes),
+    1e-5 for a float32 result — times the condition-aware magnitude"""
+    if eps is None:
+        eps = EPS32 if out_dtype(cfg.eD, cfg.tD) == 'float32' else EPS64
+    return D(eps) * (max(D(ref.Efix), ref.Evar) + ref.Evar * ref.amp)
+
+
+def mixed_precision(cfg: Cfg) -> bool:
+    """dtype patterns in which the UNCHANGED code returns a float64 result that is only single-precision
+    accurate (same root cause as C07:mixed-precision:*): the energy is float32 while tof is not (the constant is
+    narrowed to the energy's precision and sqrt(c/energy), hence t0, is evaluated there; the energy also enters the
+    final subtraction as it is), or the length of the variable leg is float32 (L**2 is squared in float32).  A float32
+    tof, or a float32 length of the fixed-energy leg, is promoted exactly and does NOT cost accuracy."""
+    if out_dtype(cfg.eD, cfg.tD) == 'float32':
+        return False
+    lvar = cfg.l2D if cfg.geom == 'direct' else cfg.l1D
+    return cfg.eD == 'f32' or lvar == 'f32'
+
+
+def band_u(cfg: Cfg) -> Fraction:
+    """unit roundoff with which the code's own t0 is computed: the energy's float type (a float32 tof or length is
+    promoted exactly; a float64 length is narrowed only when the energy is float32 as well)"""
+    return u_of('f32' if cfg.eD == 'f32' else 'f64')
 
 
 F32_MIN_NORMAL = float(np.finfo(np.float32).tiny)
@@ -393,8 +442,7 @@ def _judge(cfg: Cfg, c, impl: float, dtype: str, unit_ok: bool):
         out.append((f'C05:{cfg.geom}-infinite', 'result is infinite for finite inputs', {}))
         return out
     ref = reference(cfg, c)
-    u = max(u_of(cfg.eD), u_of(cfg.tD))
-    band = BAND_ULPS * 2 * u
+    band = BAND_ULPS * 2 * band_u(cfg)
     if ref.rel <= -band:
         if not math.isnan(impl):
             out.append((f'C05:{cfg.geom}-nan-boundary',
@@ -407,19 +455,43 @@ def _judge(cfg: Cfg, c, impl: float, dtype: str, unit_ok: bool):
                     f'arrival time is after t0 (t/t0-1={float(ref.rel):.3e}) but the result is NaN', {}))
         return out
     tol = tolerance(cfg, ref)
+    tol_single = tolerance(cfg, ref, EPS32)
+    mixed = mixed_precision(cfg)
+    kernel = f'energy_transfer_{cfg.geom}_from_tof'
     err = abs(D(Fraction(impl)) - ref.value)
     if err > tol:
-        out.append((f'C05:{cfg.geom}-value',
-                    f'result {impl!r} differs from the documented formula {float(ref.value)!r} by {float(err):.3e} '
-                    f'> tolerance {float(tol):.3e}', {'expected': float(ref.value)}))
+        if mixed and err <= tol_single:
+            out.append((f'C05:mixed-precision:{kernel}',
+                        f'float64 result {impl!r} differs from the documented formula {float(ref.value)!r} by {float(err):.3e} > the '
+                        f'double-precision budget {float(tol):.3e}; it is single-precision accurate (dtypes energy={cfg.eD} tof={cfg.tD} '
+                        f'L1={cfg.l1D} L2={cfg.l2D})', {'expected': float(ref.value)}))
+        else:
+            out.append((f'C05:{cfg.geom}-value',
+                        f'result {impl!r} differs from the documented formula {float(ref.value)!r} by {float(err):.3e} '
+                        f'> tolerance {float(tol):.3e}', {'expected': float(ref.value)}))
     if c['kind'] == 'neutron' and ref.amp <= 100:
         want = D(Fraction(float(c['Ei']))) - D(Fraction(float(c['Ef'])))
-        tol2 = tol + D(Fraction(21, 10) * u_of(cfg.tD)) * ref.Evar * ref.t_over_d
+        # rounding of the constructed arrival time to the tof dtype is not charged to the kernel
+        if cfg.tD in INTS:
+            # the arrival time was rounded to an integer: the true time lies within +-1/2 of it, exactly bounded
+            dn = D(Fraction(float(c['t']))) / ref.t_over_d          # t - t0 in tof units
+            if dn <= 1:
+                return out
+            extra = ref.Evar * ((dn / (dn - D('0.5'))) ** 2 - 1) * D('1.001')
+        else:
+            extra = D(Fraction(21, 10) * u_of(cfg.tD)) * ref.Evar * ref.t_over_d
         err2 = abs(D(Fraction(impl)) - want)
-        if err2 > tol2:
-            out.append((f'C05:{cfg.geom}-conservation',
-                        f'neutron with Ei-Ef={float(want)!r} is assigned {impl!r} (error {float(err2):.3e} > {float(tol2):.3e})',
-                        {'expected': float(want)}))
+        if err2 > tol + extra:
+            if mixed and err2 <= tol_single + extra:
+                if not any(k.startswith('C05:mixed-precision') for k, _, _ in out):
+                    out.append((f'C05:mixed-precision:{kernel}',
+                                f'neutron with Ei-Ef={float(want)!r} is assigned {impl!r}: error {float(err2):.3e} exceeds the double-precision '
+                                f'budget {float(tol + extra):.3e} but not the single-precision one (dtypes energy={cfg.eD} tof={cfg.tD} '
+                                f'L1={cfg.l1D} L2={cfg.l2D})', {'expected': float(want)}))
+            else:
+                out.append((f'C05:{cfg.geom}-conservation',
+                            f'neutron with Ei-Ef={float(want)!r} is assigned {impl!r} (error {float(err2):.3e} > {float(tol + extra):.3e})',
+                            {'expected': float(want)}))
     return out
 
 
@@ -475,14 +547,14 @@ def correspond(ctx):
     dl = [f'c05.dtype {a} {b}' for a in names for b in names]
     for line, o in zip(dl, ctx.driver(dl)):
         ctx.case(line, True)
-    dl4 = [f'c05.dtype4 {a} {b} {c} {d}' for a in names for b in names for c in ('f64', 'f32') for d in ('f64', 'f32')]
+    dl4 = [f'c05.dtype4 {a} {b} {c} {d}' for a in names for b in names for c in names for d in names]
     dtype4_model = dict(zip(dl4, ctx.driver(dl4)))
     # kernels
     ncfg = ctx.n(600, 14000)
     per = ctx.n(40, 60)
     cfgs, all_cases, lines = [], [], []
     for _ in range(ncfg):
-        cfg = random_cfg(rng, allow_int=True)
+        cfg = random_cfg(rng, allow_int=True, ctx=ctx)
         cases = gen_cases(rng, cfg, per)
         cfgs.append(cfg)
         all_cases.append(cases)
@@ -542,7 +614,7 @@ def _report(ctx, cfg, c, found, extra=None):
 def _oracle_kernels(ctx, ncfg, per):
     rng = ctx.rng
     for _ in range(ncfg):
-        cfg0 = random_cfg(rng)
+        cfg0 = random_cfg(rng, allow_int=True, ctx=ctx)
         base = gen_cases(rng, cfg0, per, kinds=('neutron', 'neutron', 'boundary', 'random', 'nonpos'), comparable=rng.random() < 0.7)
         # the same neutrons through both kernels
         for geom in ('direct', 'indirect'):
@@ -578,7 +650,7 @@ def _oracle_ladders(ctx, n):
     rng = ctx.rng
     t0_fn = getattr(K, '_energy_transfer_t0', None)
     for _ in range(n):
-        cfg = random_cfg(rng)
+        cfg = random_cfg(rng, allow_int=True, ctx=ctx)
         c = gen_cases(rng, cfg, 1, kinds=('neutron',))[0]
         E, L, uL, cc = ((c['Ei'], c['L1'], cfg.u1, c['c1']) if cfg.geom == 'direct' else (c['Ef'], c['L2'], cfg.u2, c['c2']))
         t0_code = None
@@ -675,7 +747,7 @@ def _oracle_convert(ctx, n):
             for j, c in enumerate(r):
                 ctx.case(('convert', cfg.key(), use_pos, bits(c['Ei']), bits(c['Ef']), bits(c['L1']), bits(c['L2']), bits(c['t'])), True)
                 found = judge(cfg, c, float(vals[i, j]), dtype, unit_ok)
-                found = [(k if k == 'C05:f32-constant-underflow' else k.replace('C05:', 'C05:convert-'), w, e) for k, w, e in found]
+                found = [(k if (k == 'C05:f32-constant-underflow' or k.startswith('C05:mixed-precision:')) else k.replace('C05:', 'C05:convert-'), w, e) for k, w, e in found]
                 _report(ctx, cfg, c, found, {'via': 'convert', 'positions': use_pos})
 
 
